@@ -81,11 +81,13 @@ class _MergeStrategy(Object):  # type: ignore[misc]
     def __handle_update(self) -> Iterator[None]:
         """A context manager to handle the update vs merge."""
         # Pass the update switch to _SchemaNode.
+        previous_update = self.node_class.update
         self.node_class.update = self.update
         yield
-        # Reset to the merge behavior because _SchemaNode may be used by other instances
-        # that should merge.
-        self.node_class.update = False
+        # Reset to the previous behavior, which is the merge one at the outermost level,
+        # because _SchemaNode may be used by other instances that should merge;
+        # the strategy of a nested object shall not reset the switch of its parent.
+        self.node_class.update = previous_update
 
     def add_schema(self, schema: StrKeyMapping) -> None:
         with self.__handle_update():
